@@ -196,6 +196,21 @@ pub fn programs() -> Vec<(&'static str, String)> {
     ] {
         extra.push(("slot grid: wildcard read as a variable", format!("{PRE}pub fn main(x: u8) -> u8 {{ {body} }}\n")));
     }
+    // ---- joins over rows without fields / with zero-sized keys
+    for prog in [
+        "pub fn main(a: [(); 2], b: [(); 3]) -> u8 { for _ in join_iter(a, b) {} 0u8 }\n",
+        "pub fn main(a: [(); 2], b: [(); 3], x: u8) -> u8 { let mut n = x; for r in join_iter(a, b) { n = n + 1u8; } n }\n",
+        "pub fn main(a: [(); 2], b: [(u8, u8); 3], x: u8) -> u8 { let mut n = x; for r in join_iter(a, b) { n = n + 1u8; } n }\n",
+        "pub fn main(a: [(u8, u8); 2], b: [(); 3], x: u8) -> u8 { let mut n = x; for r in join_iter(a, b) { n = n + 1u8; } n }\n",
+        "pub fn main(a: [(); 2], b: [(); 3], x: u8) -> u8 { let j = join(a, b); x }\n",
+        "pub fn main(a: [((), u8); 2], b: [((), bool); 1], x: u8) -> u8 { let mut n = x; for (p, q) in join_iter(a, b) { n = n + p.1; } n }\n",
+        "struct Z {}\npub fn main(a: [(Z, u8); 2], b: [(Z, u8); 2], x: u8) -> u8 { let mut n = x; for (p, q) in join_iter(a, b) { n = n + p.1 + q.1; } n }\n",
+        "pub fn main(a: [([u8; 0], u8); 2], b: [([u8; 0], u16); 2], x: u8) -> u8 { let mut n = x; for (p, q) in join_iter(a, b) { n = n + p.1; } n }\n",
+        "pub fn main(a: [u8; 2], b: [(u8, u8); 2], x: u8) -> u8 { let mut n = x; for r in join_iter(a, b) { n = n + 1u8; } n }\n",
+        "pub fn main(a: [(u8,); 2], x: u8) -> u8 { x }\n",
+    ] {
+        extra.push(("slot grid: joins over degenerate rows", prog.to_string()));
+    }
     // ---- values with many columns that no pattern discriminates (the exhaustiveness check must not
     //      enumerate the constructors of columns that are only bound)
     {
